@@ -43,7 +43,7 @@ class Model:
 
     def ast(self, toks):
         ws = []
-        for t in X.merge_strings(toks):
+        for t in toks:            # split literals are joined by the driver (`joinStr`), symmetrically on both sides
             w = X.word(t)
             if w is None:
                 return f"not-an-expression-token {t}"
@@ -178,7 +178,7 @@ def resplit(toks):
 
 
 def same_expr(model, a, b, what):
-    if X.merge_strings(a) == X.merge_strings(b):
+    if a == b:
         return None
     ra, rb = model.ast(a), model.ast(b)
     if not ra.startswith("A "):
